@@ -1721,13 +1721,13 @@ sf_read_raw		(SNDFILE *sndfile, void *ptr, sf_count_t bytes)
 		return	0 ;
 		} ;
 
-	if (psf->read_current >= psf->sf.frames)
-	{	psf_memset (ptr, 0, bytes) ;
+	if (bytes % (psf->sf.channels * bytewidth))
+	{	psf->error = SFE_BAD_READ_ALIGN ;
 		return 0 ;
 		} ;
 
-	if (bytes % (psf->sf.channels * bytewidth))
-	{	psf->error = SFE_BAD_READ_ALIGN ;
+	if (psf->read_current >= psf->sf.frames)
+	{	psf_memset (ptr, 0, bytes) ;
 		return 0 ;
 		} ;
 
